@@ -203,7 +203,7 @@ func dumpPaths(p *Program, spec string, depth int, pure bool) {
 			if e.Kind == "call" && (e.Callee == nil || !p.OwnedFunc(e.Callee)) && e.Method == "" {
 				continue
 			}
-			if e.Kind == "store" && e.Local {
+			if e.Kind == "store" && e.Local && os.Getenv("HIDI_DUMPLOCAL") == "" {
 				continue
 			}
 			es = append(es, e.String())
